@@ -34,6 +34,19 @@
       waiting on (`scanRest pre`, a suffix of `pre`; empty in the common case: `valid_frame_after_consumed`)
       are each covered by the stream and rejected.  Both provisos are necessary: an uncovered candidate
       is `stalled_until`, and a window that decodes IS a frame (and then swallows the start of `f`).
+
+  The reading on the reviewer's example (REVIEW R4-A-A7).  Received: the first 10 bytes of a 40-byte
+  frame, `55 28 00 01` + 6 payload bytes, then the valid frame `55 07 00 05 01 88 9c`, then idle reads.
+  The literal text ("otherwise advances one byte", "a valid frame that follows … a cut-off frame is not
+  lost") would deliver `(5, 01)` at once.  `scan`, the oracle `ref_scan` and the code deliver NOTHING,
+  under every chunking, while fewer than the declared 0x28 = 40 bytes are in (`stalled_until`; 17 bytes,
+  38 bytes: nothing), because the header at offset 0 decodes and its frame may still be in transit.
+  With the 40th byte the window is checked, rejected, the scan advances ONE byte and every frame behind
+  the cut-off one comes out, none lost (`delivery_delay_bounded`, `valid_frame_not_lost`).  So the
+  clauses "equals the scan" and "is not lost" are proved for the scan WITH the wait; what is
+  unconditional is chunking independence (`run_eq_scan`, `chunking_independent`).  The example is the
+  regression corpus `harness/corpus/C03/f4_awaited_bytes.txt` (model, code and oracle agree on it) and
+  is listed under `assumptions` in `harness/props/C03.py` (copied into evidence/C03.json).
 -/
 import NxsModel.Gen.Comm
 import NxsModel.Route
